@@ -63,6 +63,24 @@ class Sim07(scenario.Sim):
             finally:
                 self._own = prev
 
+        # scripted handler action ["fn", label, next]: the handler appends a transformation function to the
+        # patch (`patch.fns`) — applied as a JSON patch guarded by the resourceVersion; after a 422 such
+        # user functions are carried over in `memory.remaining_patch` (the framework's own finalizer
+        # edits no longer are, fix 1c8f3dd), so the next iteration starts with a non-empty patch.
+        orig_perform = self.obs._perform
+
+        async def perform(action: Any, rec: dict, kwargs: dict) -> Any:
+            while isinstance(action, list) and action and action[0] == "fn":
+                label = str(action[1])
+                p = kwargs.get("patch")
+                if p is not None:
+                    def fn(body: Any, label: str = label) -> None:
+                        body.setdefault("metadata", {}).setdefault("labels", {})["c07fn"] = label
+                    p.fns.append(fn)
+                action = action[2] if len(action) > 2 else "ok"
+            return await orig_perform(action, rec, kwargs)
+
+        self.obs._perform = perform  # type: ignore[method-assign]
         cl._apply_new = apply_new  # type: ignore[method-assign]
         cl.echo_delay = self._echo07
         cl.before_request.append(self._tag)
